@@ -8,6 +8,20 @@ from ckl.errors import CklRuntimeError
 from ckl.date import to_oa_date, to_date
 
 
+def bracket_pad(text):
+    """Separates nested set/map brackets with a space.
+
+    Adjacent angle brackets merge into a different token when the rendered
+    text is read back: <<<<1>>>> is not a set containing a set, but
+    << <<1>> >> is.
+    """
+    if text.startswith("<"):
+        text = " " + text
+    if text.endswith(">"):
+        text = text + " "
+    return text
+
+
 class Args:
     def __init__(self, pos):
         self.argNames = []
@@ -1107,11 +1121,13 @@ class ValueMap(Value):
     def __repr__(self):
         return (
             "<<<"
-            + ", ".join(
-                [
-                    f"{key} => {self.value[key]}"
-                    for key in self.getSortedKeys()
-                ]
+            + bracket_pad(
+                ", ".join(
+                    [
+                        f"{key} => {self.value[key]}"
+                        for key in self.getSortedKeys()
+                    ]
+                )
             )
             + ">>>"
         )
@@ -1452,7 +1468,9 @@ class ValueSet(Value):
     def __repr__(self):
         return (
             "<<"
-            + ", ".join([str(item) for item in self.getSortedItems()])
+            + bracket_pad(
+                ", ".join([str(item) for item in self.getSortedItems()])
+            )
             + ">>"
         )
 
